@@ -337,7 +337,7 @@ func check(c Case) (vk.Outcome, error) {
 		if !reflect.DeepEqual(append([]el{}, got...), append([]el{}, in...)) {
 			return out, viol(c, "Shrink changed the contents: %v", got)
 		}
-		if cap(got) > len(got)+c.A {
+		if cap(got)-len(got) > c.A {
 			return out, viol(c, "cap %d > len %d + n %d", cap(got), len(got), c.A)
 		}
 		// the capacity bound for element sizes and lengths that fall between allocator size classes
@@ -883,7 +883,7 @@ func genCase(t *rapid.T) Case {
 	n := len(c.In)
 	switch c.Fn {
 	case "Chunk":
-		c.A = rapid.SampledFrom([]int{-3, -1, 0, 1, 2, n - 1, n, n + 1, 7}).Draw(t, "size")
+		c.A = rapid.SampledFrom([]int{-3, -1, 0, 1, 2, n - 1, n, n + 1, 7, math.MaxInt, math.MaxInt - 1, math.MaxInt/2 + 1, math.MinInt}).Draw(t, "size")
 	case "RemoveUnordered":
 		c.A = rapid.IntRange(0, n).Draw(t, "idx")
 		c.B = rapid.IntRange(0, n-c.A).Draw(t, "cnt")
@@ -891,7 +891,7 @@ func genCase(t *rapid.T) Case {
 			c.B = n - c.A
 		}
 	case "Shrink":
-		c.A = rapid.IntRange(0, 6).Draw(t, "n")
+		c.A = rapid.SampledFrom([]int{0, 1, 2, 3, 4, 5, 6, math.MaxInt, math.MaxInt - 1, math.MaxInt / 2}).Draw(t, "n") // huge n: "any amount of spare capacity is fine"
 		c.B = rapid.IntRange(0, 9).Draw(t, "grow")
 	case "Search":
 		c.A = rapid.IntRange(-1, universe+1).Draw(t, "item")
